@@ -29,8 +29,6 @@ import (
 	"encoding/json"
 	"fmt"
 	"sort"
-	"strconv"
-	"strings"
 	"sync"
 	"sync/atomic"
 	"time"
@@ -114,16 +112,7 @@ func cnKindSpelling(k int) string {
 	return kindName(k)
 }
 
-func cnHostNum(addr string) int {
-	if !strings.HasPrefix(addr, "h") || !strings.HasSuffix(addr, ":1") {
-		return -1
-	}
-	n, err := strconv.Atoi(addr[1 : len(addr)-2])
-	if err != nil {
-		return -1
-	}
-	return n
-}
+func cnHostNum(addr string) int { return hostNum(addr) }
 
 type cnPid struct {
 	Host int    `json:"host"`
